@@ -137,15 +137,25 @@ CAMPAIGNS.update({
                   ex(ph(LAYOUT), ph(INPLACE_OPS, True, "r", 40))]),
     "equality_routes": model_campaign(
         "equality_routes", palettes=MOVE, heaps="eq",
-        quick=[ex(ph(["eq"])),
+        quick=[ex(ph(["eq"])), ex(ph(["eqx"], True)),
                ex(ph(["read"], True), ph(["eq"])),
-               ex(ph(["read"], False, "same", 0, "b"), ph(["eq"])),
+               ex(ph(["read"], True, pick=8), ph(["eqx"])),
+               ex(ph(["read"], False, "same", 0, "b"), ph(["eq", "eqx"])),
                ex(ph(["read"], True, pick=6), ph(["read"], False, "same", 3, "b"), ph(["eq"])),
                ex(ph(["filter", "sort_order", "transpose", "copy", "update_ids"], True, pick=20), ph(["read"], pick=2),
-                  ph(["eq"]))],
+                  ph(["eq", "eqx"]))],
         thorough=[ex(ph(["read"], True), ph(["read"], True, "same", 0, "b"), ph(["eq"])),
+                  ex(ph(["read"], True), ph(["read"], True, "same", 8, "b"), ph(["eqx"], True)),
                   ex(ph(["filter", "sort_order", "transpose", "copy", "update_ids", "add_metadata", "del_metadata"], True),
-                     ph(["read"], pick=3), ph(["eq"]))]),
+                     ph(["read"], pick=3), ph(["eq", "eqx"]))]),
+    "equality_triples": model_campaign(
+        "equality_triples", palettes=MOVE, heaps="eq3",
+        quick=[ex(ph(["eq3"])),
+               ex(ph(["read"], True, pick=10), ph(["eq3"])),
+               ex(ph(["read"], False, "same", 0, "b"), ph(["read"], False, "same", 4, "c"), ph(["eq3"]))],
+        thorough=[ex(ph(["read"], True), ph(["eq3"])),
+                  ex(ph(["read"], True, pick=10), ph(["read"], True, "same", 0, "b"), ph(["read"], False, "same", 4, "c"),
+                     ph(["eq3"]))]),
     "transforms": model_campaign(
         "transforms", palettes=IDONLY + [["plain", "scale_down"], ["unicode", "scale_up"], ["case_ids", "scale_down"]],
         quick=[ex(ph(XFORM, True, "r")),
@@ -330,7 +340,7 @@ PROPERTIES = {
     },
     "C16": {
         "level": "model_checking",
-        "campaigns": [CAMPAIGNS["equality_routes"], CAMPAIGNS["reads_full"]],
+        "campaigns": [CAMPAIGNS["equality_routes"], CAMPAIGNS["equality_triples"], CAMPAIGNS["reads_full"]],
         "assumptions": ["copy.deepcopy, scipy toarray and numpy are trusted for the projection"],
     },
     "C18": {
